@@ -133,6 +133,13 @@ void h_eval(void)
 #ifdef INST_STORE
 int g_unsimp_threw;
 int g_primal_dim, g_slacks_dim, g_dual_dim, g_redcost_dim, g_ray_dim, g_farkas_dim, g_rows_size, g_cols_size;
+/* this instance logs by kind: k_cnt[kind] occurrences, k_seq[kind] position in the call sequence (1-based), arguments and entry state */
+int k_cnt[NKIND], k_seq[NKIND], k_arg[NKIND], k_arg2[NKIND], k_st_in[NKIND], k_hb_in[NKIND], k_ld_in[NKIND], k_hb_out[NKIND], k_ld_out[NKIND];
+#define KLOG_ASSIGNS g_nev, __CPROVER_object_whole(k_cnt), __CPROVER_object_whole(k_seq), __CPROVER_object_whole(k_arg), __CPROVER_object_whole(k_arg2), \
+   __CPROVER_object_whole(k_st_in), __CPROVER_object_whole(k_hb_in), __CPROVER_object_whole(k_ld_in), __CPROVER_object_whole(k_hb_out), __CPROVER_object_whole(k_ld_out)
+/* kind k happened exactly once, as event number `pos` (1-based), with first argument a */
+#define AT(k, pos, a) (k_cnt[k] == 1 && k_seq[k] == (pos) && k_arg[k] == (a))
+#define NEVER(k) (k_cnt[k] == 0)
 #define LD0 (__CPROVER_old(*isRealLPLoaded) != 0)
 #define SC0 (__CPROVER_old(*isRealLPScaled) != 0)
 /* PROPERTY (C02): a ray is offered exactly for UNBOUNDED, a Farkas vector exactly for INFEASIBLE - and only when the LP in the
@@ -143,15 +150,16 @@ int g_primal_dim, g_slacks_dim, g_dual_dim, g_redcost_dim, g_ray_dim, g_farkas_d
    specification costs SAT 40 s; the flags are not part of C02 / C16) */
 #define PFEAS_MAY (status == ST_OPTIMAL || basisStatus == BS_PRIMAL || basisStatus == BS_UNBOUNDED)
 #define DFEAS_MAY (status == ST_OPTIMAL || basisStatus == BS_DUAL || basisStatus == BS_INFEASIBLE)
-/* positions in the event trace */
-#define O_BASIS ((RAY ? 1 : 0) + (FARKAS ? 1 : 0))
-#define O_UNSC1 (O_BASIS + 5)
+/* positions in the call sequence (1-based) */
+#define P_BASIS ((RAY ? 1 : 0) + (FARKAS ? 1 : 0) + 1)
 #define UNSC1 (solverScaled && !LD0)                     /* internal unscaling: solver LP scaled and not the user's LP */
-#define O_SIMP (O_UNSC1 + (UNSC1 ? 1 : 0))
+#define P_SIMP (P_BASIS + 5 + (UNSC1 ? 1 : 0))           /* first event after the extraction block */
 #define THREW (haveSimplifier && g_unsimp_threw)
-#define O_UNSC2 (O_SIMP + (haveSimplifier ? 9 : (!LD0 ? 1 : 0)))
-#define O_VERIFY (O_UNSC2 + (SC0 ? 1 : 0))
-#define TOTAL (O_VERIFY + (verify ? 1 : 0))
+#define P_UNSC2 (P_SIMP + (haveSimplifier ? 9 : (!LD0 ? 1 : 0)))
+#define P_VERIFY (P_UNSC2 + (SC0 ? 1 : 0))
+#define TOTAL (P_VERIFY - 1 + (verify ? 1 : 0))
+#define K_VERIFY_EXPECTED (status == ST_ABORT_VALUE ? K_VERIFYOBJ : K_VERIFYSOL)
+#define K_VERIFY_OTHER (status == ST_ABORT_VALUE ? K_VERIFYSOL : K_VERIFYOBJ)
 
 void w_store(int verify, int status, int basisStatus, double shift, double epszero, int* isRealLPLoaded, int* isRealLPScaled,
              int solverScaled, int haveSimplifier, int nr, int nc, int nr_orig, int nc_orig, double objval,
@@ -165,42 +173,46 @@ __CPROVER_requires(__CPROVER_is_fresh(objValOut, sizeof(double)) && __CPROVER_is
 __CPROVER_requires(BOOL01(verify) && BOOL01(*isRealLPLoaded) && BOOL01(*isRealLPScaled) && BOOL01(solverScaled) && BOOL01(haveSimplifier))
 __CPROVER_requires(BOOL01(*hasBasis) && BOOL01(*hasSolReal) && BOOL01(*pfeas) && BOOL01(*dfeas) && BOOL01(*hasPrimalRay) && BOOL01(*hasDualFarkas) && BOOL01(*weightsAreSetup))
 __CPROVER_requires(0 <= nr && 0 <= nc && 0 <= nr_orig && 0 <= nc_orig && NOTNAN(objval) && NOTNAN(shift) && NOTNAN(epszero))
+/* the harness zeroes the per-kind counters */
+__CPROVER_requires(NEVER(K_RESOLVE) && NEVER(K_LOADLP) && NEVER(K_SETBASIS) && NEVER(K_VERIFYOBJ) && NEVER(K_VERIFYSOL) && NEVER(K_GETRAY) && NEVER(K_GETFARKAS))
+__CPROVER_requires(NEVER(K_GETBASIS) && NEVER(K_GETPRIMAL) && NEVER(K_GETSLACKS) && NEVER(K_GETDUAL) && NEVER(K_GETREDCOST) && NEVER(K_UNSIMPLIFY) && NEVER(K_SIMPBASIS))
+__CPROVER_requires(NEVER(K_SETBASISVEC) && NEVER(K_COPYSOL0 + 1) && NEVER(K_COPYSOL0 + 2) && NEVER(K_COPYSOL0 + 3) && NEVER(K_COPYSOL0 + 4) && NEVER(K_UNSCALE_INT) && NEVER(K_UNSCALE_PERS))
 __CPROVER_assigns(*isRealLPLoaded, *isRealLPScaled, *hasBasis, *hasSolReal, *pfeas, *dfeas, *hasPrimalRay, *hasDualFarkas, *objValOut, *weightsAreSetup)
-__CPROVER_assigns(g_unsimp_threw, g_primal_dim, g_slacks_dim, g_dual_dim, g_redcost_dim, g_ray_dim, g_farkas_dim, g_rows_size, g_cols_size, LOG_ASSIGNS)
+__CPROVER_assigns(g_unsimp_threw, g_primal_dim, g_slacks_dim, g_dual_dim, g_redcost_dim, g_ray_dim, g_farkas_dim, g_rows_size, g_cols_size, KLOG_ASSIGNS)
 /* ---- the flag block ------------------------------------------------------------------------------------------------ */
 __CPROVER_ensures((*hasPrimalRay != 0) == RAY && (*hasDualFarkas != 0) == FARKAS)
 __CPROVER_ensures(BOOL01(*pfeas) && BOOL01(*dfeas) && (status == ST_OPTIMAL ==> (*pfeas && *dfeas)) && (*pfeas ==> PFEAS_MAY) && (*dfeas ==> DFEAS_MAY))
-__CPROVER_ensures(*hasSolReal == 1 && *objValOut == objval)
+__CPROVER_ensures(*hasSolReal == 1 && *objValOut == objval && *isRealLPScaled == __CPROVER_old(*isRealLPScaled))
 /* PROPERTY (C02): the ray / the Farkas vector is fetched from the solver exactly when the flag is set: once, into the stored
    vector, after that vector got the solver's column / row dimension; otherwise the getter is not called at all */
-__CPROVER_ensures(RAY ==> (EV(0, K_GETRAY, 1) && g_arg2[0] == nc && g_ray_dim == nc))
-__CPROVER_ensures(FARKAS ==> (EV(O_BASIS - 1, K_GETFARKAS, 1) && g_arg2[O_BASIS - 1] == nr && g_farkas_dim == nr))
-__CPROVER_ensures(!RAY ==> (g_ray_dim == -1 && g_ev[0] != K_GETRAY))
-__CPROVER_ensures(!FARKAS ==> (g_farkas_dim == -1 && g_ev[0] != K_GETFARKAS && g_ev[1] != K_GETFARKAS))
-/* basis and the four solution vectors: always fetched, each into its own stored vector of the solver's dimension */
-__CPROVER_ensures(EV(O_BASIS, K_GETBASIS, 1) && g_arg2[O_BASIS] == nr_orig)
-__CPROVER_ensures(EV(O_BASIS + 1, K_GETSOL, 1) && g_arg2[O_BASIS + 1] == nc && EV(O_BASIS + 2, K_GETSOL, 2) && g_arg2[O_BASIS + 2] == nr)
-__CPROVER_ensures(EV(O_BASIS + 3, K_GETSOL, 3) && g_arg2[O_BASIS + 3] == nr && EV(O_BASIS + 4, K_GETSOL, 4) && g_arg2[O_BASIS + 4] == nc)
-/* internal scaling removed first (LP = the solver's) */
-__CPROVER_ensures(UNSC1 ==> (EV(O_UNSC1, K_UNSCALESOL, 1) && g_arg2[O_UNSC1] == 0))
+__CPROVER_ensures(RAY ? (AT(K_GETRAY, 1, 1) && k_arg2[K_GETRAY] == nc && g_ray_dim == nc) : (NEVER(K_GETRAY) && g_ray_dim == -1))
+__CPROVER_ensures(FARKAS ? (AT(K_GETFARKAS, 1, 1) && k_arg2[K_GETFARKAS] == nr && g_farkas_dim == nr) : (NEVER(K_GETFARKAS) && g_farkas_dim == -1))
+/* basis and the four solution vectors: always fetched, once each, each into its own stored vector of the solver's dimension */
+__CPROVER_ensures(AT(K_GETBASIS, P_BASIS, 1) && k_arg2[K_GETBASIS] == nr_orig)
+__CPROVER_ensures(AT(K_GETPRIMAL, P_BASIS + 1, 1) && k_arg2[K_GETPRIMAL] == nc && AT(K_GETSLACKS, P_BASIS + 2, 1) && k_arg2[K_GETSLACKS] == nr)
+__CPROVER_ensures(AT(K_GETDUAL, P_BASIS + 3, 1) && k_arg2[K_GETDUAL] == nr && AT(K_GETREDCOST, P_BASIS + 4, 1) && k_arg2[K_GETREDCOST] == nc)
+__CPROVER_ensures(g_primal_dim == nc && g_slacks_dim == nr && g_dual_dim == nr && g_redcost_dim == nc && g_rows_size == nr_orig && g_cols_size == nc_orig)
+/* internal scaling removed first (LP = the solver's), exactly when the solver's LP is scaled and is not the user's LP */
+__CPROVER_ensures(UNSC1 ? AT(K_UNSCALE_INT, P_BASIS + 5, 1) : NEVER(K_UNSCALE_INT))
 /* ---- unsimplification --------------------------------------------------------------------------------------------- */
-__CPROVER_ensures(haveSimplifier ==> (EV(O_SIMP, K_UNSIMPLIFY, 1) && g_arg2[O_SIMP] == (status == ST_OPTIMAL)))
+__CPROVER_ensures(haveSimplifier ? (AT(K_UNSIMPLIFY, P_SIMP, 1) && k_arg2[K_UNSIMPLIFY] == (status == ST_OPTIMAL)) : NEVER(K_UNSIMPLIFY))
 /* exception during unsimplification: no basis, exactly one re-solve without presolving, nothing else */
-__CPROVER_ensures(THREW ==> (g_nev == O_SIMP + 2 && EV(O_SIMP + 1, K_RESOLVE, 0) && g_hb_in[O_SIMP + 1] == 0
-                  && *hasBasis == g_hb_out[O_SIMP + 1] && *isRealLPLoaded == g_ld_out[O_SIMP + 1]))
-__CPROVER_ensures((haveSimplifier && !THREW) ==> (EV(O_SIMP + 1, K_COPYSOL, 1) && EV(O_SIMP + 2, K_COPYSOL, 2) && EV(O_SIMP + 3, K_COPYSOL, 3) && EV(O_SIMP + 4, K_COPYSOL, 4)
-                  && EV(O_SIMP + 5, K_SIMPBASIS, 1) && EV(O_SIMP + 6, K_LOADLP, 0) && EV(O_SIMP + 7, K_SETBASIS, basisStatus) && EV(O_SIMP + 8, K_SETBASISVEC, 1)
+__CPROVER_ensures(THREW ==> (g_nev == P_SIMP + 1 && AT(K_RESOLVE, P_SIMP + 1, 0) && k_hb_in[K_RESOLVE] == 0
+                  && *hasBasis == k_hb_out[K_RESOLVE] && *isRealLPLoaded == k_ld_out[K_RESOLVE]
+                  && NEVER(K_LOADLP) && NEVER(K_UNSCALE_PERS) && NEVER(K_VERIFYOBJ) && NEVER(K_VERIFYSOL) && NEVER(K_SIMPBASIS) && NEVER(K_COPYSOL0 + 1)))
+__CPROVER_ensures(!THREW ==> NEVER(K_RESOLVE))
+__CPROVER_ensures((haveSimplifier && !THREW) ==> (AT(K_COPYSOL0 + 1, P_SIMP + 1, 1) && AT(K_COPYSOL0 + 2, P_SIMP + 2, 1) && AT(K_COPYSOL0 + 3, P_SIMP + 3, 1) && AT(K_COPYSOL0 + 4, P_SIMP + 4, 1)
+                  && AT(K_SIMPBASIS, P_SIMP + 5, 1) && AT(K_LOADLP, P_SIMP + 6, 0) && AT(K_SETBASIS, P_SIMP + 7, basisStatus) && AT(K_SETBASISVEC, P_SIMP + 8, 1)
                   && *weightsAreSetup == 0))
-__CPROVER_ensures((!haveSimplifier && !LD0) ==> EV(O_SIMP, K_LOADLP, 0))
+__CPROVER_ensures(!haveSimplifier ==> (NEVER(K_SIMPBASIS) && NEVER(K_SETBASIS) && NEVER(K_SETBASISVEC) && NEVER(K_COPYSOL0 + 1) && NEVER(K_COPYSOL0 + 2) && NEVER(K_COPYSOL0 + 3) && NEVER(K_COPYSOL0 + 4)
+                  && *weightsAreSetup == __CPROVER_old(*weightsAreSetup) && (!LD0 ? AT(K_LOADLP, P_SIMP, 0) : NEVER(K_LOADLP))))
 /* persistent scaling removed from the stored solution (on the user's LP, which is the solver's LP by now) */
-__CPROVER_ensures((!THREW && SC0) ==> (EV(O_UNSC2, K_UNSCALESOL, 1) && g_arg2[O_UNSC2] == 1))
+__CPROVER_ensures((!THREW && SC0) ? AT(K_UNSCALE_PERS, P_UNSC2, 1) : NEVER(K_UNSCALE_PERS))
 /* ---- verification dispatch (C16): an objective-limit abort is checked by _verifyObjLimitReal, everything else by
         _verifySolutionReal; exactly one of them, and only if asked for ---------------------------------------------------- */
-__CPROVER_ensures((!THREW && verify) ==> (g_nev == TOTAL && EV(O_VERIFY, (status == ST_ABORT_VALUE ? K_VERIFYOBJ : K_VERIFYSOL), 0) && g_st_in[O_VERIFY] == status
-                  && g_hb_in[O_VERIFY] == 1 && g_ld_in[O_VERIFY] == 1 && *hasBasis == g_hb_out[O_VERIFY] && *isRealLPLoaded == g_ld_out[O_VERIFY]))
-__CPROVER_ensures((!THREW && !verify) ==> (g_nev == TOTAL && *hasBasis == 1 && *isRealLPLoaded == 1))
-__CPROVER_ensures(*isRealLPScaled == __CPROVER_old(*isRealLPScaled))
-__CPROVER_ensures(g_primal_dim == nc && g_slacks_dim == nr && g_dual_dim == nr && g_redcost_dim == nc && g_rows_size == nr_orig && g_cols_size == nc_orig)
+__CPROVER_ensures((!THREW && verify) ==> (g_nev == TOTAL && AT(K_VERIFY_EXPECTED, P_VERIFY, 0) && NEVER(K_VERIFY_OTHER) && k_st_in[K_VERIFY_EXPECTED] == status
+                  && k_hb_in[K_VERIFY_EXPECTED] == 1 && k_ld_in[K_VERIFY_EXPECTED] == 1 && *hasBasis == k_hb_out[K_VERIFY_EXPECTED] && *isRealLPLoaded == k_ld_out[K_VERIFY_EXPECTED]))
+__CPROVER_ensures((!THREW && !verify) ==> (g_nev == TOTAL && NEVER(K_VERIFYOBJ) && NEVER(K_VERIFYSOL) && *hasBasis == 1 && *isRealLPLoaded == 1))
 ;
 
 void h_store(void)
